@@ -121,3 +121,19 @@ class C08(TreeSpec):
     judged = ("C08",)
     profile = "schedule"
     own_checks = ("idempotence", "freshness", "append_only", "beyond_now")
+
+
+@register
+class C05(TreeSpec):
+    id = "C05"
+    judged = ("C05",)
+    own_checks = ("c05_sizing_exception", "c05_refuse", "c05_refuse_state", "c05_zero_amount", "c05_close", "c05_integral", "c05_overspend", "c05_underfill", "c05_cash", "c05_probe_booked")
+    rule = TreeSpec.rule + "; every SecurityBase.allocate call of the run (direct, via rebalance/close/flatten/spread) is judged against the budget rule; non-trivial additionally needs >= 1 judged allocate"
+
+    def profile_for(self, r, i):
+        return "sizing" if i % 3 else "accounting"
+
+    def run(self, bt, plan):
+        res = TreeSpec.run(self, bt, plan)
+        res["nontrivial"] = res["nontrivial"] and res["fired"].get("alloc_judged", 0) >= 1
+        return res
